@@ -8,7 +8,8 @@ CONSTANTS
  CrashSet = {TRUE, FALSE}
  UploadSet = {TRUE}
  ModeSet = {"on"}
- TokenSet = {"absent", "fresh", "stale"}
+ TokenSet = {"absent", "fresh", "stale", "ghost"}
  LocalSet = {TRUE}
+ MaxFaults = 1
 INVARIANTS TypeOK NoGrandchild NoChildWhenOff ChildOnlyIfNeeded AtMostOneAcquire HolderKeepsToken OnlyApplicationsAcquire
 CHECK_DEADLOCK FALSE
